@@ -359,6 +359,77 @@ static void run_ops(M &m, const vh::Lines &ls, size_t start, Hasher &caller_hash
 		g_log_on = true; g_ev.clear();
 }
 
+// ---- initializer_list constructor (no op script reaches it; seeded change C14-r9-1 pre-sized the table there and left
+// half of the buckets uninitialised).  After the script's own map is gone, a second map is built with
+// hash_map(hasher, {entries...}, allocator) from up to 6 of the script's reference entries (plus fixed ones, so that the
+// probe also runs for scripts that insert nothing) through an allocator that hands out JUNK-FILLED blocks, and compared with
+// std::unordered_map: size, every present key, absent keys in every residue class, iteration, remove of everything, and the
+// block/lifetime registries after its destructor (oracle kinds refmap / leak-block / leak-object; no model involved).
+struct JunkAlloc {
+	void *allocate(size_t n) { void *p = vh::g_alloc.allocate(n); memset(p, 0xA5, n); return p; }
+	void deallocate(void *p, size_t n) { vh::g_alloc.deallocate(p, n); }
+	void free(void *p) { vh::g_alloc.free(p); }
+};
+using JMap = frg::hash_map<uint64_t, HV, Hasher, JunkAlloc>;
+static void ilist_check(JMap &m, std::unordered_map<uint64_t, uint64_t> &r, const char *what) {
+	if(m.size() != r.size()) vh::oracle("refmap", "%s: size() = %zu, reference %zu", what, m.size(), r.size());
+	for(auto &kv : r) {
+		HV *p = m.get(kv.first);
+		if(!p) { vh::oracle("refmap", "%s: present key %llu not found", what, (unsigned long long)kv.first); return; }
+		if(p->get() != kv.second) { vh::oracle("refmap", "%s: key %llu wrong value", what, (unsigned long long)kv.first); return; }
+	}
+	for(uint64_t a = 1000003; a < 1000003 + 64; a++)      // absent keys: all buckets of any capacity <= 64 are visited
+		if(!r.count(a) && (m.get(a) || bool(m.find(a)))) { vh::oracle("refmap", "%s: absent key %llu reported present", what, (unsigned long long)a); return; }
+	size_t n = 0;
+	for(auto it = m.begin(); it != m.end(); ++it) {
+		if(++n > r.size() + 8) { vh::oracle("refmap", "%s: iteration does not terminate within size()+8 steps", what); return; }
+		auto f = r.find(it->template get<0>());
+		if(f == r.end() || f->second != it->template get<1>().get()) { vh::oracle("refmap", "%s: iteration yields an entry the reference does not have", what); return; }
+	}
+	if(n != r.size()) vh::oracle("refmap", "%s: iteration yields %zu entries, reference has %zu", what, n, r.size());
+}
+template<size_t... I>
+static void ilist_run(const std::vector<std::pair<uint64_t, uint64_t>> &e, int kind, std::index_sequence<I...>) {
+	std::unordered_map<uint64_t, uint64_t> r;
+	for(size_t i = 0; i < sizeof...(I); i++) r[e[i].first] = e[i].second;
+	{
+		Hasher h; h.kind = kind <= 4 ? kind : 3;
+		using E = JMap::entry_type;
+		JMap m{h, {E{e[I].first, HV{e[I].second}}...}, JunkAlloc{}};
+		ilist_check(m, r, "initializer_list map");
+		// grow it past a rehash, then take everything out again
+		for(uint64_t k = 0; k < 9; k++) { uint64_t key = 500000 + 13 * k; if(!r.count(key)) { m.insert(key, HV{k}); r[key] = k; } }
+		ilist_check(m, r, "initializer_list map after 9 inserts");
+		while(!r.empty()) {
+			auto kv = *r.begin();
+			auto got = m.remove(kv.first);
+			if(!got || got->get() != kv.second) { vh::oracle("refmap", "initializer_list map: remove(%llu) returned %s", (unsigned long long)kv.first, got ? "a wrong value" : "nothing"); break; }
+			r.erase(r.begin());
+			if(r.size() == 4) ilist_check(m, r, "initializer_list map while emptying");
+		}
+		if(r.empty() && m.size() != 0) vh::oracle("refmap", "initializer_list map: size() = %zu after removing every key", m.size());
+	}
+	vh::g_life.check_empty("hash_map(initializer_list)");
+	vh::g_alloc.check_empty("hash_map(initializer_list)");
+}
+static void ilist_probe(const std::unordered_map<uint64_t, uint64_t> &ref, int kind) {
+	bool was = g_log_on; g_log_on = false;
+	std::vector<std::pair<uint64_t, uint64_t>> e;
+	for(auto &kv : ref) { if(e.size() >= 6) break; e.push_back(kv); }
+	size_t want = 1 + ref.size() % 6;                      // 1..6 entries, varies with the script
+	for(uint64_t k = 1; e.size() < want; k++) if(!ref.count(k * 7919)) e.push_back({k * 7919, k});
+	ilist_run(e, kind, std::make_index_sequence<0>{});     // the empty list
+	switch(want) {
+	case 1: ilist_run(e, kind, std::make_index_sequence<1>{}); break;
+	case 2: ilist_run(e, kind, std::make_index_sequence<2>{}); break;
+	case 3: ilist_run(e, kind, std::make_index_sequence<3>{}); break;
+	case 4: ilist_run(e, kind, std::make_index_sequence<4>{}); break;
+	case 5: ilist_run(e, kind, std::make_index_sequence<5>{}); break;
+	default: ilist_run(e, kind, std::make_index_sequence<6>{}); break;
+	}
+	g_log_on = was;
+}
+
 static void body(const vh::Lines &ls) {
 	Hasher h;                       // the harness's hasher object: outlives every map, changed by "reseed"
 	bool temporary = false;
@@ -388,6 +459,7 @@ static void body(const vh::Lines &ls) {
 	printf("dtor\ne%s\n", g_ev.c_str());
 	vh::g_life.check_empty("hash_map");
 	vh::g_alloc.check_empty("hash_map");
+	ilist_probe(ref, h.kind);
 }
 
 int main(int argc, char **argv) {
